@@ -5,10 +5,14 @@
 //! stdin: one case per line: `<policy-doc hex> <op>;<op>;...`
 //!   op = `A:<action>(<val>,<val>,...)`  on-graph action (values: see lib.rs)
 //!      | `D:<FactName>`                 dump the committed facts of that name
+//!      | `S`                            open an ephemeral `Session` on the graph's current head
+//!      | `E:<action>(<val>,...)`        ephemeral action in that session (`Session::action`)
+//!      | `R`                            a second fresh session `receive`s every command the first one produced
 //! stdout per case: results joined by `;`
 //!   action: `ok[Effect{f=v,..}|Effect{..}]`  or `err:<class>`
 //!   dump:   `dump[<keyhex>.<keyhex>=name=val,name=val|...]`  (serialised keys byte for byte,
 //!           values decoded from postcard)
+//!   `S`: `session` ; `R`: `recv[Effect{..}|..]` or `recv-err:<class>@<i>[..]`
 use std::io::{self, BufRead, Write};
 use std::panic;
 
@@ -19,7 +23,31 @@ use aranya_runtime::{
     storage::{Query as _, Storage as _, StorageProvider as _, linear::testing::MemStorageProvider},
     vm_policy::testing::TestFfiEnvelope,
 };
+use aranya_runtime::policy::Sink;
 use hx_vmpolicy::*;
+
+/// Collects the serialised session commands; `rollback` drops those of the failed action.
+#[derive(Default)]
+struct MsgSink {
+    msgs: Vec<Box<[u8]>>,
+    mark: usize,
+}
+impl<'b> Sink<&'b [u8]> for MsgSink {
+    fn begin(&mut self) {}
+    fn consume(&mut self, m: &'b [u8]) {
+        self.msgs.push(m.into());
+    }
+    fn rollback(&mut self) {
+        self.msgs.truncate(self.mark);
+    }
+    fn commit(&mut self) {}
+}
+
+fn parse_call(rest: &str) -> Option<(aranya_policy_vm::ast::Identifier, Vec<Value>)> {
+    let (name, args) = rest.strip_suffix(')').and_then(|r| r.split_once('('))?;
+    let args: Option<Vec<Value>> = args.split(',').filter(|a| !a.is_empty()).map(parse_value).collect();
+    Some((name.parse().ok()?, args?))
+}
 
 fn run_case(line: &str) -> String {
     let Some((ph, ops)) = line.split_once(' ') else { return "bad-case".into() };
@@ -41,8 +69,40 @@ fn run_case(line: &str) -> String {
     };
     sink.take();
     let mut out = Vec::new();
+    let mut session = None;
+    let mut msgs = MsgSink::default();
     for op in ops.split(';').filter(|o| !o.is_empty()) {
-        if let Some(name) = op.strip_prefix("D:") {
+        if op == "S" {
+            session = cs.session(graph).ok();
+            msgs = MsgSink::default();
+            out.push(if session.is_some() { "session".into() } else { "session-error".to_string() });
+        } else if let Some(rest) = op.strip_prefix("E:") {
+            let (Some(sess), Some((name, args))) = (session.as_mut(), parse_call(rest)) else {
+                out.push("bad-op".into());
+                continue;
+            };
+            msgs.mark = msgs.msgs.len();
+            let r = sess.action(&cs, &mut sink, &mut msgs, VmAction { name, args: args.into() });
+            let effs = sink.take();
+            match r {
+                Ok(()) => out.push(format!("ok[{}]", effs.iter().map(show_effect).collect::<Vec<_>>().join("|"))),
+                Err(e) => out.push(format!("err:{}{}", client_err_class(&e), if effs.is_empty() { "" } else { "+leaked-effects" })),
+            }
+        } else if op == "R" {
+            let Ok(mut s2) = cs.session(graph) else {
+                out.push("session-error".into());
+                continue;
+            };
+            let mut failed = None;
+            for (i, m) in msgs.msgs.iter().enumerate() {
+                if let Err(e) = s2.receive(&cs, &mut sink, m) {
+                    failed = Some(format!("recv-err:{}@{i}", client_err_class(&e)));
+                    break;
+                }
+            }
+            let effs = sink.take();
+            out.push(format!("{}[{}]", failed.unwrap_or_else(|| "recv".into()), effs.iter().map(show_effect).collect::<Vec<_>>().join("|")));
+        } else if let Some(name) = op.strip_prefix("D:") {
             let storage = cs.provider().get_storage(graph).expect("storage");
             let idx = storage.fact_cache().expect("fact cache");
             let mut rows = Vec::new();
